@@ -247,13 +247,17 @@ def _loop_depth(f):
     return {b: sum(1 for h in heads if h in dom.get(b, ()) and h in reach[b]) for b in f.blocks}
 
 
-def rule_common_flag(chk, P, rid, floor=5):
-    """frozen from two seeded changes that dropped the same conjunct: the multi-lane ZUC-EIA3 C routines shorten the last common keystream
-    round only if every lane ends there (the per-lane tail assumes a full round otherwise); the routine states that belief by keeping an
-    all-lanes-equal flag, so every selection between the short and the full generation call that the minimum length steers must read it"""
-    r = chk.rule(rid, 'in a routine that keeps an all-lanes-end-together flag (a scalar local that only steers control flow), every `if` inside a '
-                      'loop that selects between a short and a full round of the same generation call reads that flag: lanes longer than '
-                      'the shortest must not be given a shortened round', floor=floor)
+Z1_BASELINE = None
+
+
+def _z1_baseline_path():
+    import os
+    return os.path.join(os.path.dirname(os.path.dirname(os.path.abspath(__file__))), 'data', 'z1_baseline.json')
+
+
+def _guarded_selections(P):
+    """{function: (number of once-for-all-lanes short/full selections that read an all-lanes flag, [unguarded selection sites], flags)}"""
+    res = {}
     seen = set()
     for tu in P.tus():
         for f in P.funcs(tu):
@@ -264,20 +268,56 @@ def rule_common_flag(chk, P, rid, floor=5):
             if not sel:
                 continue
             flags = pure_flags(f)
-            if not flags:
-                continue
             depth = _loop_depth(f)
+            guarded, unguarded = 0, []
             for bid, t, a, c in sel:
-                refs = _cond_refs(f, bid, t)
-                # only the selection made once for all lanes: in the loop over the common part, not nested in a per-lane loop (there the
-                # generation call works on one lane's private state and its own remaining length)
                 if depth.get(bid) != 1:
                     continue
-                key = '%s@%s' % (f.name, (t.get('loc') or '').split('/')[-1])
-                r.check(bool(refs & flags), key, t.get('loc') or f.loc,
-                        '%s: the choice between %s and %s at %s does not read the routine\'s all-lanes-equal flag (%s): a lane longer than the '
-                        'shortest one gets a shortened keystream round' % (f.name, a['e']['fn'] + '(' + ', '.join(guards.lv(x) for x in a['e'].get('a', [])) + ')',
-                                                                         c['e']['fn'] + '(...)', t.get('loc'), ', '.join(sorted(flags))))
+                if _cond_refs(f, bid, t) & flags:
+                    guarded += 1
+                else:
+                    unguarded.append((bid, t, a, c))
+            res[f.name] = (guarded, unguarded, flags, f)
+    return res
+
+
+def write_z1_baseline(P):
+    import json
+    cur = _guarded_selections(P)
+    with open(_z1_baseline_path(), 'w') as fh:
+        json.dump({'what': 'per function: number of short/full keystream-round selections (made once for all lanes) that read the all-lanes-end-'
+                           'together flag on the reference tree', 'functions': {k: v[0] for k, v in sorted(cur.items()) if v[0]}}, fh, indent=0)
+    return sum(1 for v in cur.values() if v[0])
+
+
+def rule_common_flag(chk, P, rid, floor=5):
+    """frozen from three seeded changes that dropped the same conjunct: the multi-lane ZUC-EIA3 C routines shorten the last common keystream
+    round only if every lane ends there (the per-lane tail assumes a full round otherwise); the routine states that belief by keeping an
+    all-lanes-equal flag, so every selection between the short and the full generation call that the minimum length steers must read it.
+    The functions that did so on the reference tree must still do so (the flag cannot simply be removed together with its test)"""
+    import json
+    import os
+    r = chk.rule(rid, 'in a routine that keeps an all-lanes-end-together flag (a scalar local that only steers control flow), every `if` inside a '
+                      'loop that selects between a short and a full round of the same generation call reads that flag, and the routines that '
+                      'guarded that choice on the reference tree still do: lanes longer than the shortest must not be given a shortened round', floor=floor)
+    base = {}
+    if os.path.exists(_z1_baseline_path()):
+        base = json.load(open(_z1_baseline_path()))['functions']
+    else:
+        chk.broken('Z1 baseline missing')
+        return
+    cur = _guarded_selections(P)
+    for name, (guarded, unguarded, flags, f) in sorted(cur.items()):
+        if flags:
+            for bid, t, a, c in unguarded:
+                r.bad('%s@%s' % (name, (t.get('loc') or '').split('/')[-1]), t.get('loc') or f.loc,
+                      '%s: the choice between %s and %s at %s does not read the routine\'s all-lanes-equal flag (%s): a lane longer than the '
+                      'shortest one gets a shortened keystream round' % (name, a['e']['fn'] + '(' + ', '.join(guards.lv(x) for x in a['e'].get('a', [])) + ')',
+                                                                       c['e']['fn'] + '(...)', t.get('loc'), ', '.join(sorted(flags))))
+        want = base.get(name, 0)
+        if want or guarded:
+            r.check(guarded >= want, name, f.loc, '%s guards %d of its short/full keystream-round selections with an all-lanes flag; the reference '
+                                                  'tree guards %d (the flag and its test were removed together)' % (name, guarded, want))
 
 
 # ------------------------------------------------------------------------------------------------------------------------------
